@@ -52,6 +52,9 @@ func zzH12handle() {
 	zzAssert(rec.countL("adv_inconsistencies", "eth0", "2001:db8::/64", "prefix_information_valid_lifetime") == zzIte(validDiff, 1, 0), "prefix-lifetime-counted-under-the-prefix-label")
 	zzAssert(rec.countL("adv_inconsistencies", "eth0", "2001:db8:ffff::/48", "route_information_lifetime") == zzIte(routeDiff, 1, 0), "route-lifetime-counted-under-the-route-label")
 	zzAssert(rec.countL("adv_received", "eth0", "router advertisement") == 1, "received-counted")
+	// each inconsistency is logged once, under one header line iff there is any
+	zzAssert(zzLogCount(": inconsistency ") == n, "one-log-line-per-inconsistency")
+	zzAssert(zzLogCount("inconsistencies detected") == zzIte(n > 0, 1, 0), "log-header-iff-some-inconsistency")
 	zzAssert(hooks == zzIte(n > 0, 1, 0), "hook-fires-iff-some-inconsistency")
 	if hooks == 1 && len(st.fwdValues) == 1 {
 		zzAssert(hookTheirs == theirs, "hook-gets-the-received-ra")
